@@ -532,6 +532,16 @@ impl<'a> From<bool> for DataOperator<'a> {
     }
 }
 
+/// Renders a float for STAMQL: always with a period and never in exponent notation, so that it parses back as a float
+fn float_to_query(n: f64) -> String {
+    let s = format!("{}", n);
+    if s.contains('.') || !n.is_finite() {
+        s
+    } else {
+        s + ".0"
+    }
+}
+
 impl<'a> DataOperator<'a> {
     /// Turns the DataOperator to a string, compatible with STAMQL
     pub fn to_string(&self) -> Result<String, StamError> {
@@ -558,15 +568,15 @@ impl<'a> DataOperator<'a> {
                 )),
             },
             DataOperator::EqualsInt(n) => Ok(format!("= {}", n)),
-            DataOperator::EqualsFloat(n) => Ok(format!("= {:?}", n)),
+            DataOperator::EqualsFloat(n) => Ok(format!("= {}", float_to_query(*n))),
             DataOperator::GreaterThan(n) => Ok(format!("> {}", n)),
             DataOperator::GreaterThanOrEqual(n) => Ok(format!(">= {}", n)),
             DataOperator::LessThan(n) => Ok(format!("< {}", n)),
             DataOperator::LessThanOrEqual(n) => Ok(format!("<= {}", n)),
-            DataOperator::GreaterThanFloat(n) => Ok(format!("> {:?}", n)),
-            DataOperator::GreaterThanOrEqualFloat(n) => Ok(format!(">= {:?}", n)),
-            DataOperator::LessThanOrEqualFloat(n) => Ok(format!("<= {:?}", n)),
-            DataOperator::LessThanFloat(n) => Ok(format!("< {:?}", n)),
+            DataOperator::GreaterThanFloat(n) => Ok(format!("> {}", float_to_query(*n))),
+            DataOperator::GreaterThanOrEqualFloat(n) => Ok(format!(">= {}", float_to_query(*n))),
+            DataOperator::LessThanOrEqualFloat(n) => Ok(format!("<= {}", float_to_query(*n))),
+            DataOperator::LessThanFloat(n) => Ok(format!("< {}", float_to_query(*n))),
             DataOperator::ExactDatetime(d) => Ok(format!("= {}", d.to_rfc3339())),
             DataOperator::AfterDatetime(d) => Ok(format!("> {}", d.to_rfc3339())),
             DataOperator::AtOrAfterDatetime(d) => Ok(format!(">= {}", d.to_rfc3339())),
